@@ -15,7 +15,7 @@ CONSTANTS
   CurBufs <- RB_Cur
   CurWBufs <- WB_Cur
   AppendModes = {FALSE}
-  OpenOpts <- Opts_Mid
+  OpenOpts <- Opts_Deep
   OpenPaths = {"f", "d"}
   OpenData = {"read_at", "write_at", "metadata", "set_len"}
   NsInits = {"f"}
